@@ -203,15 +203,39 @@ def frame_lazy(p="self", slot=None):
 
 WF_LAZY = wf_lazy("self")
 NORM = "ite(key < 0, key + len_(self.swcs), key)"
+# a method / an item step may call the reader itself at most once, and then for the file of the slot that was requested
+DIRECT_READ = "ncalls('Tree.from_swc') <= 1 and implies(ncalls('Tree.from_swc') == 1, same(callarg('Tree.from_swc', 0, 'swc_file'), {p}.swcs[{slot}]))"
+
+
+def _direct_reads(calls):
+    return sum(1 for nm, _ in calls if nm == "Tree.from_swc")
+
+
+def _bump(reads, slot, n):
+    """ghost update reads[slot] += n"""
+    if n:
+        kz = to_z3(slot, "int")
+        reads.cols = [z3.Store(reads.cols[0], kz, z3.Select(reads.cols[0], kz) + n)]
 
 
 def _count_reads(E, v, o):
     """ghost_exit of LazyLoadingTrees.load: reads[key] += number of Tree.from_swc calls this execution made"""
-    n = sum(1 for nm, _ in E.call_log if nm == "Tree.from_swc")
+    _bump(v["self"].fields["reads"], v["key"], _direct_reads(E.call_log))
+
+
+def _count_getitem_reads(E, v, o):
+    """ghost_exit of LazyLoadingTrees.__getitem__: a Tree.from_swc call made by __getitem__ ITSELF (not through `load`, whose
+    contract counts its own) is a read on behalf of the requested slot"""
+    n = _direct_reads(E.call_log)
     if n:
-        r = v["self"].fields["reads"]
-        kz = to_z3(v["key"], "int")
-        r.cols = [z3.Store(r.cols[0], kz, z3.Select(r.cols[0], kz) + n)]
+        key, ln = to_z3(o["key"], "int"), v["self"].fields["swcs"].nz()
+        _bump(v["self"].fields["reads"], Sym(z3.If(key < 0, key + ln, key), "int"), n)
+
+
+def _count_item_reads(E, v, k, item, calls):
+    """item ghost of LazyLoadingTrees.__iter__ (pyvc/ext_C19.py: with_item_ghost): a Tree.from_swc call made while item k is
+    produced, by the element ITSELF (not through __getitem__ / load, whose contracts count their own), is a read on behalf of slot k"""
+    _bump(v["self"].fields["reads"], k, _direct_reads(calls))
 
 
 def _init_reads(E, v, o):
@@ -244,7 +268,10 @@ def register_lazy(R):
         prop="C19",
         setup=lambda S: dict(self=lazy_obj(S), __ghost__=GHOST),
         returns="int",
-        ensures=["number-of-files :: result == len_(self.swcs)"],
+        # every public method keeps the object invariant: asking for the length reads nothing and changes nothing at all
+        ensures=["number-of-files :: result == len_(self.swcs)",
+                 "asking-for-the-length-requests-nothing :: ncalls('Tree.from_swc') == 0 and ncalls('LazyLoadingTrees.load') == 0 and ncalls('LazyLoadingTrees.__getitem__') == 0"]
+        + frame_lazy("self"),
     )
     R.add(
         f"{POP}:LazyLoadingTrees.__init__",
@@ -288,9 +315,11 @@ def register_lazy(R):
         modifies=["self.trees", "self.reads"],
         raises={"IndexError": "out-of-range-only :: key < -len_(self.swcs) or key >= len_(self.swcs)"},
         returns="oref",
+        ghost_exit=_count_getitem_reads,
         ensures=[
             "in-range-accepted :: -len_(self.swcs) <= key and key < len_(self.swcs)",
             f"tree-of-the-ith-file :: same(result, tree_of(self.swcs[{NORM}])) and not same(result, None)",
+            f"a-direct-read-is-of-the-requested-file-only :: {DIRECT_READ.format(p='self', slot=NORM)}",
             f"only-that-entry-changes :: len_(self.trees) == len_(old(self.trees)) and forall(0, len_(self.trees), lambda j: implies(j != {NORM}, same(self.trees[j], old(self.trees)[j])))",
             f"loads-only-the-requested-file :: ncalls('LazyLoadingTrees.load') == 1 and callarg('LazyLoadingTrees.load', 0, 'key') == {NORM}",
             f"returns-the-cached-tree :: same(result, self.trees[{NORM}])",
@@ -465,9 +494,33 @@ def _eval_term(E, text, vars):
 CREATION = "creating-the-iterator-requests-nothing :: ncalls('LazyLoadingTrees.__getitem__') == 0 and ncalls('LazyLoadingTrees.load') == 0 and ncalls('Tree.from_swc') == 0 and ncalls('Trees.__getitem__') == 0 and ncalls('ChainTrees.__getitem__') == 0"
 
 
+def _requests_only_slot_k(p):
+    """"only when that file's tree is requested": whatever the element asks of the container while item k is produced -- lookups
+    (LazyLoadingTrees.__getitem__, any index form), explicit loads -- is for slot k (what it may do to the slot itself -- read its file once, hand out the cached tree --
+    is said by the clauses next to this one).  The unchanged element `self[i]` makes exactly one lookup, of key k."""
+    def f(E, v, o):
+        lz = _eval_term(E, p, v)
+        n, k = lz.fields["swcs"].nz(), to_z3(v["k"], "int")
+        acc = []
+        for nm, a in E.call_log:
+            if nm not in ("LazyLoadingTrees.__getitem__", "LazyLoadingTrees.load"):
+                continue
+            if a.get("self") is not lz:
+                return False
+            key = to_z3(a["key"], "int")
+            acc.append(z3.If(key < 0, key + n, key) == k if nm.endswith("__getitem__") else key == k)
+        return z3.And(*acc) if acc else True
+
+    return f
+
+
 def item_lazy(p):
     return ([f"item-k-is-the-tree-of-the-k-th-file :: same(got, tree_of({p}.swcs[k])) and not same(got, None)",
-             "requests-exactly-item-k :: ncalls('LazyLoadingTrees.__getitem__') == 1 and callarg('LazyLoadingTrees.__getitem__', 0, 'key') == k"]
+             ("requests-exactly-item-k", _requests_only_slot_k(p)),
+             # load-once over ANY history: what has been handed out is in the cache afterwards (so no later access reads it again) ...
+             f"every-tree-handed-out-is-cached-afterwards :: same({p}.trees[k], got)",
+             # ... and the element reads no file itself except (at most once) the k-th
+             f"a-direct-read-is-of-the-k-th-file-only :: {DIRECT_READ.format(p=p, slot='k')}"]
             + frame_lazy(p, "k") + [c.replace("wf-", "inv-kept/") for c in wf_lazy(p)])
 
 
@@ -484,7 +537,7 @@ def register_iter(R):
     R.add(f"{POP}:LazyLoadingTrees.__iter__", prop="C19",
           setup=lambda S: dict(self=lazy_obj(S), __ghost__=GHOST),
           requires=WF_LAZY,
-          options=dict(genexp_hook=X.genexp_hook),
+          options=dict(genexp_hook=X.genexp_hook, generator_hook=X.generator_hook, item_ghost=_count_item_reads),
           ghost_exit=lambda E, v, o: X.arbitrary_item(E, v["result"], "LazyLoadingTrees.__iter__/item", dict(self=v["self"]), WF_LAZY, item_lazy("self")),
           ensures=[("a-lazy-iterator-with-one-item-per-file", _is_lazy_iter("len_(self.swcs)")), CREATION] + frame_lazy("self"))
 
@@ -501,7 +554,7 @@ def register_iter(R):
     R.add(f"{POP}:Population.__iter__", prop="C19",
           variants={"lazy": lambda S: dict(self=pop_lazy(S), __ghost__=GHOST), "any-trees": lambda S: dict(self=pop_any(S), __ghost__=GHOST)},
           requires=[("object-invariant-of-a-lazy-container", lambda E, v, o: True if isinstance(v["self"].fields["trees"], Opaque) else _all(E, wf_lazy("self.trees"), v))],
-          options=dict(genexp_hook=X.genexp_hook),
+          options=dict(genexp_hook=X.genexp_hook, generator_hook=X.generator_hook),
           ghost_exit=pop_iter_exit,
           ensures=[("a-lazy-iterator-with-one-item-per-tree", _is_lazy_iter("len_(self.trees)")), CREATION,
                    ("creating-the-iterator-changes-nothing", lambda E, v, o: True if isinstance(v["self"].fields["trees"], Opaque) else _all(E, frame_lazy("self.trees"), v, o))])
@@ -510,7 +563,7 @@ def register_iter(R):
     R.add(f"{POP}:ChainTrees.__iter__", prop="C19",
           setup=lambda S: dict(self=chain_obj(S), __ghost__=GHOST),
           requires=WF_CHAIN,
-          options=dict(genexp_hook=X.genexp_hook),
+          options=dict(genexp_hook=X.genexp_hook, generator_hook=X.generator_hook),
           ghost_exit=lambda E, v, o: X.arbitrary_item(
               E, v["result"], "ChainTrees.__iter__/item", dict(self=v["self"]), WF_CHAIN,
               ["item-k-is-the-element-of-the-member-whose-window-contains-k :: exists(0, len_(self.trees), lambda m: self.cumsum[m] <= k and k < self.cumsum[m + 1] and same(got, item(self.trees[m], k - self.cumsum[m])))",
@@ -1084,7 +1137,7 @@ def register_populations(R):
     R.add(f"{POP}:Populations.__iter__", prop="C19",
           setup=lambda S: dict(self=pops_obj(S), __ghost__=GHOST),
           requires=["len-is-a-length :: self.len >= 0"],
-          options=dict(genexp_hook=X.genexp_hook),
+          options=dict(genexp_hook=X.genexp_hook, generator_hook=X.generator_hook),
           ghost_exit=lambda E, v, o: X.arbitrary_item(E, v["result"], "Populations.__iter__/item", dict(self=v["self"]), [],
                                                       [("item-k-is-the-row-of-the-k-th-tree-of-every-population-in-order", row)]),
           ensures=[("a-lazy-iterator-with-len-rows", _is_lazy_iter("self.len")), CREATION])
